@@ -87,7 +87,7 @@ theorem readDi_encode (rc : ReqCodec) (s : Store) (hlen : s.di.length < 2 ^ 32) 
   simp only [index_array_codec s.di hlen hx]
 
 theorem readItem_encode (rc : ReqCodec) (s : Store) (i : Nat) : readItem rc (encodeStore rc s) i = s.items i := by
-  unfold readItem
+  unfold readItem readItemWith
   rw [enc_item]
   cases s.items i with
   | none => rfl
